@@ -106,6 +106,7 @@ func RunCheck(c *Check, tier string, seed int64, replayPath string) int {
 	if c.Post != nil {
 		c.Post(r, tier, seed)
 	}
+	checkAnchors(r, c)
 	return r.Finish()
 }
 
